@@ -451,6 +451,7 @@ struct Live {
     /// message_seq of the peer's Finished
     fin_seq: u16,
     flight: u64,
+    flight_known: bool,
     sentinel_ctr: u64,
     forge_seq: u64,
     injected: u64,
@@ -506,6 +507,7 @@ async fn walk(certs: &Certs, target_is_client: bool, phase: Phase) -> Result<Liv
         client_hello: None,
         fin_seq: 0,
         flight: 4,
+        flight_known: false,
         sentinel_ctr: 0,
         forge_seq: 0,
         injected: 0,
@@ -638,9 +640,10 @@ impl Live {
         if !self.target_is_client {
             self.client_hello = ch;
         }
-        let f = self.pair.c.tap.from_peer.load(Ordering::SeqCst);
-        if self.phase == Phase::NoKeys || self.phase == Phase::KeysPending {
-            self.flight = f.max(1);
+        // size of the server's first flight in datagrams: what the client tap saw before any sentinel was sent
+        if !self.flight_known && (self.phase == Phase::NoKeys || self.phase == Phase::KeysPending) {
+            self.flight = self.pair.c.tap.from_peer.load(Ordering::SeqCst).max(1);
+            self.flight_known = true;
         }
     }
 }
@@ -971,7 +974,8 @@ async fn settle(l: &mut Live) -> Result<Settled, String> {
             }
             let want = c0 + 3 * l.flight;
             let runner_done = || l.pair.s.runner.is_finished();
-            let ok = wait_until(&[&ctap, &tgt_tap], SETTLE_LIMIT, || ctap.from_peer.load(Ordering::SeqCst) >= want || runner_done()).await;
+            // a round that takes longer than 1.8 s is not accepted anyway
+            let ok = wait_until(&[&ctap, &tgt_tap], Duration::from_secs(2), || ctap.from_peer.load(Ordering::SeqCst) >= want || runner_done()).await;
             if runner_done() {
                 // let the task's channel close become visible
                 let (d, _) = l.target().drain_app();
@@ -1277,10 +1281,14 @@ async fn run_inject(edges_path: &str, out_path: &str) {
                         break json!({"type": "tool", "edge": i, "error": err});
                     }
                 };
-                // a pair in a handshake phase that got too old may have hit the code's own deadline
-                if held_phase && l.pair.born.elapsed() > Duration::from_secs(25) && attempt < 3 {
+                // a pair in a handshake phase that got too old may have hit the code's own 30 s handshake
+                // deadline: its outcome is never used
+                if held_phase && l.pair.born.elapsed() > Duration::from_secs(22) {
                     live = None;
-                    continue;
+                    if attempt < 4 {
+                        continue;
+                    }
+                    break json!({"type": "tool", "edge": i, "error": "pair in a handshake phase kept getting too old (machine overloaded?)"});
                 }
                 max_acc = max_acc.max(acc);
                 let s = &o.settled;
